@@ -74,6 +74,37 @@ def families(tier):
         out.append(dict(prop='C08', family='c08.timeout_after_completion', id=f'c08/tmo-{cshape}-p{tp}-c{tc}-{how}-s{int(sib)}', cfg=dict(cfg, window=1.2, max_targets=3),
                         params=dict(shape='timeout', awaiter='handler'),
                         scn=dict(buses={'A': {}}, order=['A'], handlers=hs, main=main, actors=[], forwards=[], settle=3.0)))
+    # the same event object dispatched by hand to two or three buses (no forwarding handler), some of which have no handler for it
+    for nb, quiet, who, par in itertools.product((2, 3), ('none', 'first', 'first_two'), ('main', 'handler'), (False, True)):
+        names = ['A', 'B', 'C'][:nb]
+        if quiet == 'first_two' and nb == 2:
+            continue
+        nq = {'none': 0, 'first': 1, 'first_two': 2}[quiet]
+        hs = []
+        for i, b in enumerate(names):
+            if i >= nq:
+                hs.append(dict(bus=b, pat='P', name='hp' + b, prog=[('pause',), ('ret', b)]))
+            hs.append(dict(bus=b, pat='Y', name='hy' + b, prog=[('ret', 0)]))  # a handler for another type: the bus is not handler-less
+        fan = [('disp', names[0], 'P', 'late')] + [('redisp', b, 'P') for b in names[1:]]
+        if who == 'main':
+            main = fan + [('await', 'P'), ('pause',)]
+        else:
+            hs.append(dict(bus='A', pat='X', name='hx', prog=fan + [('await', 'P'), ('pause',)]))
+            main = [('disp', 'A', 'X', 'await')]
+        for order in (names, names[::-1]):
+            out.append(dict(prop='C08', family='c08.multi_dispatch', id=f'c08/multi-{nb}-{quiet}-{who}-p{int(par)}-o{"".join(order)}', cfg=cfg, params=dict(shape='multi', awaiter=who),
+                            scn=dict(buses={b: dict(parallel=par) for b in names}, order=order, handlers=hs, main=main, actors=[], forwards=[], settle=3.0)))
+    # parent handler times out while an awaited child with TWO concurrently running handlers (parallel_handlers bus) is processed inline
+    for cb, tc in itertools.product('AB', (None, 1.0)):
+        names = ['A', 'B'] if cb == 'B' else ['A']
+        copt = {} if tc is None else {'timeout': tc}
+        hs = [dict(bus='A', pat='P', name='hp', prog=[('disp', cb, 'C', 'await', copt)]), dict(bus=cb, pat='C', name='hc1', prog=[('pause',), ('ret', 1)]),
+              dict(bus=cb, pat='C', name='hc2', prog=[('pause',), ('ret', 2)]), dict(bus='A', pat='X', name='hx', prog=[('ret', 0)])]
+        main = [('disp', 'A', 'P', 'ff', {'timeout': 0.5}), ('disp', 'A', 'X', 'ff'), ('pause',)]
+        for order in ([names] if len(names) == 1 else [names, names[::-1]]):
+            out.append(dict(prop='C08', family='c08.timeout_parallel_child', id=f'c08/tmo-par-c{cb}-c{tc}-o{"".join(order)}', cfg=dict(cfg, window=1.2, max_targets=3),
+                            params=dict(shape='timeout_parallel', awaiter='handler'),
+                            scn=dict(buses={b: dict(parallel=(b == cb)) for b in names}, order=order, handlers=hs, main=main, actors=[], forwards=[], settle=3.0)))
     return out
 
 
